@@ -42,12 +42,29 @@ let asis_answer b p m op args =
   let both f g = let r = show (f b p m (a 3) (a 4) (a 5) (a 6)) in
     if show (g b p m (a 3) (a 4) (a 5) (a 6)) = r then Some r else Some ("estimate-dependent " ^ r) in
   let opv f sg = Some (showv (f b p p m (a 3) (a 4) (a 5) (a 6) sg)) in
+  let resv = function Ok v -> Some (showv v) | _ -> None in
+  let resa = function Ok ap -> show ap | Panic _ -> "panic" | _ -> "other" in
+  (* second operand precision of the mulp_*/divp_* forms; the raw big-integer operand of the *prim_* forms *)
+  let p2 () = z (List.nth args 7) in
+  let n () = z (List.nth args 5) in
+  let pre op' = let l = String.length op' in fun s -> String.length s > l && String.sub s 0 (l + 1) = op' ^ "_" in
   match op with
+  | "div" -> (* Context::div: the answer must not depend on the digit estimates *)
+      let r = resa (ctx_div_x b p m (a 3) (a 4) (a 5) (a 6)) in
+      if resa (ctx_div_x1 b p m (a 3) (a 4) (a 5) (a 6)) = r then (if r = "panic" || r = "other" then None else Some r)
+      else Some ("estimate-dependent " ^ r)
+  | "inv" -> (match ctx_inv b p m (a 3) (a 4) with Ok ap -> Some (show ap) | _ -> None)
+  | "mulprim_fi" -> Some (showv (mul_float_prim b p m (a 3) (a 4) (n ())))
+  | "mulprim_if" -> Some (showv (mul_prim_float b p m (n ()) (a 3) (a 4)))
+  | "divprim_fi" -> resv (div_float_prim b p m (a 3) (a 4) (n ()))
+  | "divprim_if" -> resv (div_prim_float b p m (n ()) (a 3) (a 4))
+  | s when pre "mulp" s -> Some (showv (fbig_mul b p (p2 ()) m (a 3) (a 4) (a 5) (a 6)))
+  | s when pre "divp" s -> resv (fbig_div b p (p2 ()) m (a 3) (a 4) (a 5) (a 6))
+  | "mul_vv" | "mul_vr" | "mul_rv" | "mul_rr" | "mul_assign" -> Some (showv (fbig_mul b p p m (a 3) (a 4) (a 5) (a 6)))
+  | "div_vv" | "div_vr" | "div_rv" | "div_rr" | "div_assign" -> resv (fbig_div b p p m (a 3) (a 4) (a 5) (a 6))
   | "mul" -> Some (show (ctx_mul b p m (a 3) (a 4) (a 5) (a 6)))
   | "sqr" -> Some (show (ctx_sqr b p m (a 3) (a 4)))
   | "cubic" -> Some (show (ctx_cubic b p m (a 3) (a 4)))
-  | "div" -> (match repr_div b p m (a 3) (a 4) (a 5) (a 6) with Ok ap -> Some (show ap) | _ -> None)
-  | "inv" -> (match repr_div b p m Zar.one Zar.zero (a 3) (a 4) with Ok ap -> Some (show ap) | _ -> None)
   | "add" -> both ctx_add_x ctx_add_x1
   | "sub" -> both ctx_sub_x ctx_sub_x1
   | "add_vv" | "add_assign" -> opv add_val_val_x Positive
@@ -71,11 +88,35 @@ let add_path_of b p base_op args =
 
 let strip op = match String.index_opt op '_' with Some i -> String.sub op 0 i | None -> op
 
+(* Round::round_fract called directly: the answer with the f32 pre-filter must be the exact comparison's
+   (Model.round_fract; FilterProof.round_fract_f32_eq) - the sharpest sound filter is evaluated too *)
+let judge_rfract args got =
+  let b = z (List.nth args 0) and m = mode_of (List.nth args 1) and k = z (List.nth args 2) in
+  let i = z (List.nth args 3) and f = z (List.nth args 4) in
+  let want = round_fract b m i f k in
+  if round_fract_sharp b m i f k <> want then fail "model-filter-disagrees" else
+  let c = Zar.compare (Zar.mul (Zar.of_int 2) (Zar.abs f)) (Zar.pow b (Zar.to_int k)) in
+  let bits = Zar.numbits (Zar.pow b (Zar.to_int k)) in
+  let cls = (if c = 0 then "tie" else if c > 0 then "above" else "below") ^ "-" ^
+            (if bits < 8192 then "lt8k" else if bits < 16384 then "8k-16k" else if bits < 32768 then "16k-32k" else "ge32k") in
+  expect ~nt:(want <> NoOp) ~extra:("cls=rfract-" ^ cls ^ " asis=same") ("ok " ^ flag_name want) got
+
 let judge op args got =
+  if op = "rfract" then judge_rfract args got else
   let b = z (List.nth args 0) and m = mode_of (List.nth args 1) and p = z (List.nth args 2) in
   let x1 = frac b (z (List.nth args 3)) (isz (List.nth args 4)) in
   let x2 () = frac b (z (List.nth args 5)) (isz (List.nth args 6)) in
-  let base_op = match op with "fsqr" -> "sqr" | "fcubic" -> "cubic" | "fsqrt" -> "sqrt" | _ -> strip op in
+  let base_op = match op with "fsqr" -> "sqr" | "fcubic" -> "cubic" | "fsqrt" -> "sqrt"
+    | _ -> (match strip op with "mulp" | "mulprim" -> "mul" | "divp" | "divprim" -> "div" | s -> s) in
+  (* primitive (op) float: the operands of the exact result are swapped *)
+  let swapped = (op = "divprim_if") in
+  let (x1, x2) = if swapped then (x2 (), fun () -> x1) else (x1, x2) in
+  (* the precision the result must carry: Context::max of the operand precisions *)
+  let p0 = p in
+  let p = match strip op with
+    | "mulp" | "divp" -> ctx_max p (z (List.nth args 7))
+    | "mulprim" | "divprim" -> ctx_max p (prim_prec b (z (List.nth args 5)))
+    | _ -> p in
   let divides_by_zero = (base_op = "div" && Zar.sign (fst (x2 ())) = 0) || (base_op = "inv" && Zar.sign (fst x1) = 0) in
   let neg_root = base_op = "sqrt" && Zar.sign (fst x1) < 0 in
   if divides_by_zero then expect ~extra:"cls=div0" "panic DivideBy0" got
@@ -99,7 +140,7 @@ let judge op args got =
           let ok = check_contract b p m x (z s) (isz e) (flag_of f) in
           let exact = (cmp_kx b Zar.one x (z s) (isz e) = Eq) in
           let cls = (if exact then "exact" else "inexact") ^ "-" ^ f in
-          let fid = match asis_answer b p m op args with
+          let fid = match asis_answer b p0 m op args with
             | Some want -> if want = s ^ " " ^ e ^ " " ^ f then " asis=same" else " asis=diff"
             | None -> "" in
           let fid = fid ^ add_path_of b p op args in
